@@ -70,7 +70,48 @@ def locked(f, pos):
     return any(f.dominates(l, pos) for l in lock_defs(f))
 
 
+
+def streamstore_indexed(db, cx):
+    """C07.5 (seeded change c07e): StreamStore::state(stream_id, size) is called by every stream on
+    the one shared store without a lock; that is race-free only because each stream touches the
+    element of its own stream id.  Inside the per-stream accessors every non-const use of the
+    state vectors therefore goes through `[...]`; the vectors themselves are sized at construction."""
+    n = 0
+    for nm in db.find(r"^celeritas::StreamStore::(state|stateptr_impl)$"):
+        for f in db.get(nm):
+            # only the run-time accessors that take a stream id
+            if not any("StreamId" in (p_.get("cty") or p_.get("ty") or "") or "OpaqueId<celeritas::Stream_" in
+                       (p_.get("cty") or p_.get("ty") or "") for p_ in f.r["params"]):
+                continue
+            bad = []
+            for (_b, _i, e) in f.events():
+                if e["e"] == "call" and e.get("constm") is False:
+                    if e["callee"].split("::")[-1] in ("operator[]", "at", "begin", "end", "data", "front", "back"):
+                        continue        # element access: the element is judged by what is done to it
+                    pth = (e.get("recv") or {}).get("path") or {}
+                elif e["e"] == "write":
+                    pth = e.get("path") or {}
+                else:
+                    continue
+                root = pth.get("root", "")
+                ch = pth.get("chain", [])
+                on_vec = root == "call:" + C + "StreamStore::states_impl" or (
+                    root == "this" and any(x in ("f:" + C + "StreamStore::host_states_",
+                                                 "f:" + C + "StreamStore::device_states_") for x in ch))
+                if on_vec and "[]" not in ch:
+                    bad.append("%s @%s" % (e.get("callee", e.get("lhs", "?")).split("::")[-1],
+                                           short(e["loc"]).split(":", 1)[1]))
+            n += 1
+            cx.ob("C07.5-streamstore-indexed",
+                  "%s modifies only the element of its own stream" % f.inst.split("::")[-1][:60],
+                  not bad, "whole-vector modification: %s" % ", ".join(bad) if bad else "", short(f.loc),
+                  why="the per-stream stores of a diagnostic are reached by all streams concurrently "
+                      "and without a lock; resizing or re-assigning the vector itself from a stream "
+                      "races with the other streams' element accesses (lost tallies, heap corruption)")
+    cx.floor("per-stream StreamStore accessors", n, 2)
+
 def run(db, cx):
+    streamstore_indexed(db, cx)
     entries = entry_nodes(db)
     cx.floor("per-stream entry points", len(entries), 30)
     R = db.reachable_from([f.node for f in entries])
